@@ -13,6 +13,8 @@ no `refineUnmodelled` escape: `refineNonNull` is PROVED to accept every result o
 
 <fname> of `D11b.glueTable` (string functions = `cty.StringVal ∘ library`); the entries are the recorded
 calls of the real library, as for `std.glue` (Driver/HStdNum.lean).
+  d11b.math <fname> (<arg>*) <f64>         -- log / pow: <f64> is the math library's answer (`nan` | <num>)
+
 Answer: `ok <val>` | `err` | `panicerr` | `panic` | `unmodelled` | `oracle-miss`.
 -/
 import Driver.HStdlib
@@ -42,4 +44,9 @@ def handleD11b : Handler := fun op args =>
     let r1 := HStdlib.outStr (fun v => toString v.toSexp) ((f (HStdNum.libOf t false)).call {} as)
     let r2 := HStdlib.outStr (fun v => toString v.toSexp) ((f (HStdNum.libOf t true)).call {} as)
     pure (if r1 == r2 then r1 else "oracle-miss")
+  | "d11b.math", [.atom name, .list as, o] => do
+    let f ← D11b.mathByName name
+    let as ← as.mapM Value.ofSexp
+    let o ← HStdNum.decF64 o
+    pure (HStdlib.outStr (fun v => toString v.toSexp) ((f (fun _ _ => o)).call {} as))
   | _, _ => none
